@@ -10,6 +10,19 @@ SPEC = {
     'id': 'C20',
     'lean_modules': ['AITB.Props.C20'],
     'theorems': [
+        'AITB.Trie.walk_spec',
+        'AITB.Trie.insert_cells',
+        'AITB.Trie.RI_mk',
+        'AITB.Trie.RI_insert',
+        'AITB.Trie.RI_erase',
+        'AITB.Trie.RI_erasePF',
+        'AITB.Trie.applyFilters_spec',
+        'AITB.Trie.filter_spec',
+        'AITB.Trie.refine_spec',
+        'AITB.Trie.getAllIds_spec',
+        'AITB.Trie.size_spec',
+        'AITB.Trie.getAllIds_code_partial',
+        'AITB.Trie.trie_refines_spec',
     ],
     'harness': 'harness/c20.cpp',
     'level': 'proof',
